@@ -4,10 +4,10 @@
   `exchangeArch_spec` says, relative to the world *at the time of the call*; everybody else is
   untouched.
 -/
-import ArcheProofs.Lemmas.BatchOps
+import ArcheProofs.Lemmas.DInv
 
 namespace Arche.BatchLoop
-open Arche Arche.World Arche.Arr Arche.Storage Arche.IndexInv Arche.SameRows Arche.Graph Arche.Closed Arche.TInv Arche.KInv Arche.Move Arche.Remove Arche.Cov Arche.Cache Arche.SInv Arche.Batch Arche.BatchOps
+open Arche Arche.World Arche.Arr Arche.Storage Arche.IndexInv Arche.SameRows Arche.Graph Arche.Closed Arche.TInv Arche.KInv Arche.Move Arche.Remove Arche.Cov Arche.Cache Arche.SInv Arche.Batch Arche.BatchOps Arche.DInv
 open Arche.Props.C01 (At WInv)
 
 /-- the exchange is legal for entities with component set `m`: every removed component is
@@ -112,12 +112,14 @@ structure LoopPost (w w' : World) (add rem : List CompId) (rel : Option CompId) 
   tsize : w.tables.size ≤ w'.tables.size
   pool : w'.pool = w.pool
   reg : w'.reg = w.reg
+  dinv : DInv w → DInv w' ∧ w'.cfg = w.cfg
   old : ∀ t, t < w.tables.size → w'.tableIds t = w.tableIds t ∧ w'.tableMask t = w.tableMask t ∧ w'.tableRel t = w.tableRel t
   entries : news.map (fun b => (b.old, b.stop - b.start)) = (lens.filter (fun p => p.2 != 0)).map (fun p => (some p.1, p.2))
   stop : ∀ b ∈ news, b.start ≤ b.stop
   moved : ∀ p ∈ lens, p.2 ≠ 0 → ∀ i, i < p.2 → ∃ b ∈ news, MovedTo w w' add rem rel target p.1 i b
   others : ∀ id l, ¬ Sel w lens id → loc w id = some l →
     loc w' id = some l ∧ rowAt w' l.tbl l.row = rowAt w l.tbl l.row ∧ (w'.tableOf l.tbl).target = (w.tableOf l.tbl).target
+  locs : ∀ id, ¬ Sel w lens id → loc w' id = loc w id
 
 theorem sel_cons_zero (w : World) (t : Nat) (rest : List (Nat × Nat)) (id : Nat) : Sel w ((t, 0) :: rest) id ↔ Sel w rest id := by
   constructor
@@ -141,7 +143,7 @@ theorem exchangeBatchLoop_spec (add rem : List CompId) (rel : Option CompId) (ta
     rw [exchangeBatchLoop_nil] at h
     simp only [Prod.mk.injEq, Except.ok.injEq] at h
     obtain ⟨rfl, rfl⟩ := h
-    refine ⟨[], by simp, ⟨hK, hS, Nat.le_refl _, rfl, rfl, fun _ _ => ⟨rfl, rfl, rfl⟩, rfl, ?_, ?_, ?_⟩⟩
+    refine ⟨[], by simp, ⟨hK, hS, Nat.le_refl _, rfl, rfl, fun d => ⟨d, rfl⟩, fun _ _ => ⟨rfl, rfl, rfl⟩, rfl, ?_, ?_, ?_, fun _ _ => rfl⟩⟩
     · intro b hb; cases hb
     · intro p hp; cases hp
     · intro id l _ hl; exact ⟨hl, rfl, rfl⟩
@@ -159,7 +161,7 @@ theorem exchangeBatchLoop_spec (add rem : List CompId) (rel : Option CompId) (ta
       rw [exchangeBatchLoop_zero] at h
       have hL' : LensOK w add rem rest := ⟨hLrest_nodup, fun p hp hnz => hL.ok p (List.mem_cons_of_mem _ hp) hnz⟩
       obtain ⟨news, hbs, hP⟩ := ih w acc w' bs hK hS hL' h
-      refine ⟨news, hbs, ⟨hP.kinv, hP.sinv, hP.tsize, hP.pool, hP.reg, hP.old, ?_, hP.stop, ?_, ?_⟩⟩
+      refine ⟨news, hbs, ⟨hP.kinv, hP.sinv, hP.tsize, hP.pool, hP.reg, hP.dinv, hP.old, ?_, hP.stop, ?_, ?_, ?_⟩⟩
       · rw [hP.entries]; simp
       · intro p hp hnz i hi
         rcases List.mem_cons.1 hp with rfl | hp
@@ -167,6 +169,8 @@ theorem exchangeBatchLoop_spec (add rem : List CompId) (rel : Option CompId) (ta
         · exact hP.moved p hp hnz i hi
       · intro id l hns hl
         exact hP.others id l (fun hs => hns ((sel_cons_zero w t rest id).2 hs)) hl
+      · intro id hns
+        exact hP.locs id (fun hs => hns ((sel_cons_zero w t rest id).2 hs))
     · obtain ⟨htlt, hlen, hlegal⟩ := hL.ok (t, ln) List.mem_cons_self hln
       simp only [] at htlt hlen hlegal
       subst hlen
@@ -176,8 +180,9 @@ theorem exchangeBatchLoop_spec (add rem : List CompId) (rel : Option CompId) (ta
         rw [h] at this; cases this
       | ok b =>
         rw [exchangeBatchLoop_ok w add rem rel target acc t _ rest hln b hA] at h
-        obtain ⟨mask, tgt, hm, htg, k1, s1, hts1, hp1, hr1, hblt, hbne, hbo, hbstop, hbmask, hbtarget, hmoved, hothers, hold, hsrcrows, hrows, htargets⟩ :=
+        obtain ⟨mask, tgt, hm, htg, k1, s1, hts1, hp1, hr1, hblt, hbne, hbo, hbstop, hbmask, hbtarget, hmoved, hothers, hold, hsrcrows, hrows, htargets, hlocs⟩ :=
           exchangeArch_spec w hK hS t htlt add rem rel target hne b hA _ rfl
+        have hdinv1 := fun d => dinv_exchangeArch w d hK.node t _ htlt add rem rel target b hA
         generalize hw1 : (w.exchangeArch t (w.tableOf t).rows.size add rem rel target).1 = w1 at *
         -- the remaining entries are untouched
         have hrest : ∀ p ∈ rest, p.2 ≠ 0 → p.1 < w.tables.size ∧ p.1 ≠ t ∧ p.1 ≠ b.tbl ∧ (w1.tableOf p.1).rows = (w.tableOf p.1).rows := by
@@ -208,7 +213,11 @@ theorem exchangeBatchLoop_spec (add rem : List CompId) (rel : Option CompId) (ta
           rw [hje, h2] at h1
           simp only [Option.some.injEq, Loc.mk.injEq] at h1
           exact htnot p hp h1.1.symm
-        refine ⟨b :: news1, by rw [hbs]; simp, ⟨hP.kinv, hP.sinv, Nat.le_trans hts1 hP.tsize, by rw [hP.pool, hp1], by rw [hP.reg, hr1], ?_, ?_, ?_, ?_, ?_⟩⟩
+        refine ⟨b :: news1, by rw [hbs]; simp, ⟨hP.kinv, hP.sinv, Nat.le_trans hts1 hP.tsize, by rw [hP.pool, hp1], by rw [hP.reg, hr1], ?_, ?_, ?_, ?_, ?_, ?_, ?_⟩⟩
+        · intro d
+          obtain ⟨d1, c1⟩ := hdinv1 d
+          obtain ⟨d2, c2⟩ := hP.dinv d1
+          exact ⟨d2, c2.trans c1⟩
         · intro t' ht'
           obtain ⟨a, b', c⟩ := hP.old t' (Nat.lt_of_lt_of_le ht' hts1)
           obtain ⟨a', b'', c'⟩ := hold t' ht'
@@ -257,5 +266,14 @@ theorem exchangeBatchLoop_spec (add rem : List CompId) (rel : Option CompId) (ta
           have hv := (hK.idx.fwd id l hl).1
           have hact : (w.tableOf l.tbl).active = true := active_of_nonempty w hK l.tbl hv.1 (by have := hv.2; omega)
           exact ⟨d1, by rw [d2, c2], by rw [d3, htargets l.tbl hv.1 hact]⟩
+        · intro id hns
+          have hnothead : ∀ i, i < (w.tableOf t).rows.size → (rowAt w t i).ent.id ≠ id := by
+            intro i hi heq
+            exact hns ⟨(t, (w.tableOf t).rows.size), List.mem_cons_self, hln, i, hi, heq⟩
+          have hns1 : ¬ Sel w1 rest id := by
+            rintro ⟨p, hp, hnz, j, hj, hje⟩
+            rw [hrowAt p hp hnz] at hje
+            exact hns ⟨p, List.mem_cons_of_mem _ hp, hnz, j, hj, hje⟩
+          rw [hP.locs id hns1, hlocs id hnothead]
 
 end Arche.BatchLoop
